@@ -39,6 +39,7 @@ extern "C" int LLVMFuzzerTestOneInput(const uint8_t* data, size_t size) {
   const MODULE_TYPE mt = fdp.ConsumeIntegralInRange<int>(0, 3) == 0 ? NTT120 : FFT64;
   const unsigned mask = (mt == FFT64 && fdp.ConsumeBool()) ? spq::GENERIC : spq::FULL;
   const uint64_t len = fdp.ConsumeIntegralInRange<uint64_t>(1, 40);
+  vh::g_case_hash = vh::fnv1a(data, size);
   FdpChooser ch{fdp};
   pipeline::Machine<FdpChooser> m(k, mt, mask, ch);
   for (uint64_t i = 0; i < len && m.fail.empty() && fdp.remaining_bytes() > 0; ++i) m.step();
